@@ -190,12 +190,17 @@ def build_ocaml(pid):
     exe = os.path.join(bdir, low + "_run")
     if not (os.path.exists(ml) and os.path.exists(drv)):
         return False, "missing %s or %s" % (ml, drv), exe
-    newest = max(os.path.getmtime(p) for p in (ml, drv, util))
+    incs = []
+    m = re.match(r"\(\*\s*include:\s*([^*]*)\*\)", open(drv).read())       # first line: (* include: a.inc.ml b.inc.ml *)
+    if m:
+        incs += [os.path.join(VERIF, "ocaml", x) for x in m.group(1).split()]
+    incs += sorted(glob.glob(os.path.join(VERIF, "ocaml", low + "_*.inc.ml")))   # fragments owned by sub-parts
+    newest = max(os.path.getmtime(p) for p in [ml, drv, util] + incs)
     if os.path.exists(exe) and os.path.getmtime(exe) >= newest:
         return True, "up to date", exe
     allml = os.path.join(bdir, low + "_all.ml")
     with open(allml, "w") as f:
-        for p in (ml, util, drv):
+        for p in [ml, util] + incs + [drv]:
             f.write(open(p).read()); f.write("\n")
     rc, out, _ = sh(["ocamlfind", "ocamlopt", "-inline", "100", "-w", "-a", low + "_all.ml", "-o", exe],
                     cwd=bdir, timeout=900)
@@ -294,7 +299,13 @@ class Leg:
     per_case_s  time allowance per case for the implementation worker
     """
     def __init__(self, name, gen, oracle=None, nontrivial=None, deciding=True, shrink=None, canon_impl=None,
-                 per_case_s=0.05, jobs=None, race=False, describe=None, impl_env=None):
+                 per_case_s=0.05, jobs=None, race=False, describe=None, impl_env=None, py_spec=None, spec_proj=None,
+                 skip_model=None):
+        # py_spec(case) -> spec observable computed by an independent Python oracle (overrides the model's spec column)
+        # spec_proj(observable) -> projection of an impl/model observable into the domain of the spec observable
+        # skip_model(model_observable) -> True when the model declares the case outside its domain (e.g. an oracle
+        #   value would be needed); such cases are counted as skipped, never as agreement
+        self.py_spec, self.spec_proj, self.skip_model = py_spec, spec_proj, skip_model
         self.name, self.gen, self.oracle = name, gen, oracle
         self.nontrivial = nontrivial or (lambda c: True)
         self.deciding, self.shrink, self.canon_impl = deciding, shrink, canon_impl
@@ -400,15 +411,20 @@ class Runner:
         """-> ('ok'|'known'|'violation'|'corr'|'corr+violation'|'unlisted', finding_or_None)"""
         c, i, m, s, cls = row
         classes = [x for x in cls.split(",") if x and x != "-"]
+        if leg.skip_model and leg.skip_model(m):
+            return "skipped", None
+        if leg.py_spec:
+            s = leg.py_spec(c)
+        proj = leg.spec_proj or (lambda x: x)
         if i == m:
-            if s == "-" or m == s:
+            if s == "-" or proj(m) == s:
                 return "ok", None
             for k in classes:
                 if k in self.open_classes:
                     return "known", self.open_classes[k]
             return "unlisted", None
         # implementation differs from the faithful model: correspondence broken on this case
-        if s != "-" and i != s:
+        if s != "-" and proj(i) != s:
             return "corr+violation", None
         return "corr", None
 
@@ -436,6 +452,8 @@ class Runner:
             rec = {"leg": leg.name, "case": row[0], "impl": row[1], "model": row[2], "spec": row[3], "class": row[4], "kind": kind}
             if kind == "ok":
                 st["agree"] += 1
+            elif kind == "skipped":
+                st["skipped"] = st.get("skipped", 0) + 1
             elif kind == "known":
                 st["agree"] += 1
                 st["known_class_instances"] += 1
